@@ -147,14 +147,18 @@ def _case(i):
         else:
             predicted = 'load_error'
         res['hist']['predicted:' + str(predicted if (loadable is False or admitted) else 'not_admitted(check only)')] = 1
-        info = {'file_kind': fkind, 'name_kind': nkind, 'stdin_kind': skind, 'file_bytes_hex': data[:400].hex(),
+        info = {'file_kind': fkind, 'name_kind': nkind, 'stdin_kind': skind, 'global_flags': None, 'file_bytes_hex': data[:400].hex(),
                 'stdin_bytes_hex': sdata[:200].hex(), 'file_name': fname}
         key = C.sha(data + b'\0' + sdata + fname.encode())
         res['key'] = key
-        cmds = [('check', [binary, 'check', '--color', 'never', path])]
+        verbose = ['--verbose'] if rng.random() < 0.35 else []
+        info['global_flags'] = verbose
+        if verbose:
+            res['hist']['flag:--verbose'] = 1
+        cmds = [('check', [binary] + verbose + ['check', '--color', 'never', path])]
         if (not loadable) or admitted:
             for lvl in (0, 1, 2):
-                cmds.append(('run-O%d' % lvl, [binary, 'run', '-O%d' % lvl, '--color', 'never', path]))
+                cmds.append(('run-O%d' % lvl, [binary] + verbose + ['run', '-O%d' % lvl, '--color', 'never', path]))
         for cname, cmd in cmds:
             p = C.run_proc(cmd, sdata, cpu=10)
             if p.cpu_killed:
